@@ -45,6 +45,8 @@ pub enum PKind {
     /// the watcher backend calls the real event handler with Err(..)
     FsErr { tag: u32 },
     SetThrottle { ms: u64 },
+    /// `Config::filterer()` with a new filterer (generation + 1), at run time
+    ReplaceFilterer,
 }
 
 #[derive(Clone, Debug, Serialize, Deserialize, PartialEq, Eq, Hash)]
@@ -63,6 +65,7 @@ pub enum Change {
     Throttle(u64),
     ReplaceActionHandler,
     ReplaceErrorHandler,
+    ReplaceFilterer,
 }
 
 #[derive(Clone, Debug, Serialize, Deserialize, PartialEq, Eq, Hash)]
@@ -152,6 +155,10 @@ pub struct E2Scn {
     /// slow watcher backend: the k-th watch/unwatch call stalls the fs worker task for `ms`
     #[serde(default)]
     pub watch_slow: Vec<(u32, u64)>,
+    /// ids whose verdict depends on the filterer in place: rejected by generations 0, 2, .. and accepted by
+    /// generations 1, 3, .. (each `ReplaceFilterer` installs the next generation)
+    #[serde(default)]
+    pub flip_ids: Vec<u32>,
 }
 
 impl Default for E2Scn {
@@ -180,6 +187,7 @@ impl Default for E2Scn {
             hash_seed: 0,
             filter_slow: vec![],
             watch_slow: vec![],
+            flip_ids: vec![],
         }
     }
 }
@@ -187,6 +195,18 @@ impl Default for E2Scn {
 impl E2Scn {
     pub fn verdict(&self, id: u32) -> u8 {
         self.verdicts.iter().find(|(i, _)| *i == id).map(|(_, v)| *v).unwrap_or(0)
+    }
+    /// verdict of the filterer of generation `gen` for event `id`
+    pub fn verdict_gen(&self, id: u32, gen: u32) -> u8 {
+        if self.flip_ids.contains(&id) {
+            if gen % 2 == 1 {
+                0
+            } else {
+                1
+            }
+        } else {
+            self.verdict(id)
+        }
     }
     pub fn max_handler(&self) -> u64 {
         self.handler_durs.iter().copied().max().unwrap_or(0)
@@ -238,6 +258,7 @@ pub struct LibWorld {
     pub watchers: Vec<WatcherState>,
     pub oneshot_done: Vec<(u8, bool)>,
     pub action_gen: u32,
+    pub filter_gen: u32,
     pub error_gen: u32,
     pub jobs_created: u32,
     pub holders: Vec<tokio::task::JoinHandle<()>>,
@@ -301,14 +322,18 @@ pub fn prio_of(p: u8) -> Priority {
 // ---- filterer
 
 #[derive(Debug)]
-pub struct SimFilterer;
+pub struct SimFilterer {
+    /// which filterer this is: 0 = the one installed at start-up, n = after n replacements
+    pub gen: u32,
+}
 
 impl Filterer for SimFilterer {
     fn check_event(&self, event: &Event, _priority: Priority) -> Result<bool, RuntimeError> {
         let id = event_id(event);
+        let gen = self.gen;
         let (verdict, slow) = lib(|l| {
             let s = l.scn.as_ref();
-            (s.map(|s| s.verdict(id)).unwrap_or(0), s.and_then(|s| s.filter_slow.iter().find(|f| f.0 == id).map(|f| f.1)).unwrap_or(0))
+            (s.map(|s| s.verdict_gen(id, gen)).unwrap_or(0), s.and_then(|s| s.filter_slow.iter().find(|f| f.0 == id).map(|f| f.1)).unwrap_or(0))
         });
         log(Ev::Filter { id, verdict });
         crate::ctx::stall_current_task(slow);
@@ -364,6 +389,13 @@ fn apply_change(c: &Change) {
                 l.error_gen
             });
             install_error_handler(&config, g);
+        }
+        Change::ReplaceFilterer => {
+            let g = lib(|l| {
+                l.filter_gen += 1;
+                l.filter_gen
+            });
+            config.filterer(SimFilterer { gen: g });
         }
     }
 }
@@ -697,6 +729,7 @@ async fn producer(pi: usize, steps: Vec<PStep>, wx: Arc<Watchexec>) {
                 log(Ev::Note { what: "fs-callback-error", a: tag as i64, b: fired as i64 });
             }
             PKind::SetThrottle { ms } => apply_change(&Change::Throttle(ms)),
+            PKind::ReplaceFilterer => apply_change(&Change::ReplaceFilterer),
         }
     }
 }
@@ -712,7 +745,7 @@ async fn e2_root(scn: E2Scn) {
     config.event_channel_size = scn.event_cap as usize;
     config.error_channel_size = scn.error_cap as usize;
     config.throttle(Duration::from_millis(scn.throttle));
-    config.filterer(SimFilterer);
+    config.filterer(SimFilterer { gen: 0 });
     install_action_handler(&config, 0);
     install_error_handler(&config, 0);
     if let Some(ms) = scn.init_poll {
